@@ -4,6 +4,25 @@ package main
 
 var round5Texts = map[string]round2Text{
 	"C01": {Explain: "Round 5: R-GUARD — the minimal-INTEGER checks (cryptobyte.checkASN1Integer, asn1.checkInteger) accept only behind a branch that establishes a non-empty octet string (their callers index bytes[0]); ct/asn1.parseTagAndLength and parseField joined the covered list after the fix of 4a312c4."},
+	"C03": {Explain: "Round 5: R-VSET — rsa.VerifyPKCS1v15 and rsa.VerifyPSS accept only behind len(sig) == pub.Size() (RFC 8017 8.1.2/8.2.2 step 1; a longer signature with leading zero octets is the same integer)."},
+	"C06": {Explain: "Round 5: the exact-length rule of the RSA verifiers (R-VSET, see C03) is adopted: the SelfSigned flag hangs on it."},
+	"C07": {Explain: "Round 5: R-SCAN — the membership helpers of CertificateChain (*InChain) visit every element: range loop, upward index loop from 0 while i < len, or downward from len-1 while i >= 0."},
+	"C13": {Explain: "Round 5: R-PROV — the issuerKeyHash / issuerNameHash stored by CreateRequest and CreateResponse are, on every path and through helpers, the result of hash.Hash.Sum (never an octet string taken from the certificate such as SubjectKeyId)."},
+	"C15": {Explain: "Round 5: R-CUT — microsoft.parse files a per-issuer list in IssuerLists only on the edge where the lookup of that map found none (get-or-create)."},
+	"C16": {Explain: "Round 5: R-ERR — in the ct packages no reader wraps io.EOF into its short-read error (%w) while a list reader ends its list on errors.Is(err, io.EOF); either alone is harmless, the pair turns a truncated last element into a clean end."},
+	"C19": {Explain: "Round 5: R-SIBLING — ReadOptionalASN1Boolean stores only the default through out itself and hands out to ReadASN1Boolean, the reader carrying the 00/ff rule; R-GUARD of C01 on the minimal-INTEGER checks is adopted."},
+	"C23": {Explain: "Round 5: R-VSET exact signature length (see C03); R-SWALLOW — PrivateKey.Decrypt reports success after a call of one of the package's Decrypt* functions only behind that call's nil error."},
+	"C24": {Explain: "Round 5: R-PRE — the TLS 1.3 client accepts a ServerHello only past a successful lookup of the selected group in keySharesByGroup (a ClientHello can carry a hybrid share and its classical fallback)."},
+	"C25": {Explain: "Round 5: R-STATE — in Conn.Read, after handlePostHandshakeMessage the next readRecord is reached only over the edge c.hand.Len() <= 0 (several post-handshake messages may share a record)."},
+	"C27": {Explain: "Round 5: R-PRE — both checkForResumption functions resume a ticket without client certificates only behind requiresClientCert(c.config.ClientAuth) == false, c.config being the Config in force for the connection (after GetConfigForClient)."},
+	"C28": {Explain: "Round 5: R-PRE — the client stores handshakeLog.ServerKeyExchange only behind processServerKeyExchange == nil (the log is built from the key agreement object, complete only then)."},
+	"C29": {Explain: "Round 5: R-PURE — no method of ClientFingerprintConfiguration stores an element into, or appends into a reslice (x[:0], x[:n]) of, a slice field of the receiver."},
+	"C31": {Explain: "Round 5: R-CUT — the TLS 1.3 checkForResumption returns an error only behind differing identity/binder counts or a decrypted ticket; an offer it cannot use is skipped."},
+	"C32": {Explain: "Round 5: R-TABLE — every hash identifier in supportedSKXSignatureAlgorithms, defaultSKXSignatureAlgorithms and supportedClientCertSignatureAlgorithms is a key of supportedHashFunc (a missing one yields crypto.Hash(0) and a panic in the handshake)."},
+	"C33": {Explain: "Round 5: R-PROV — GeneralSubtreeIP.UnmarshalJSON stores Data.IP and Data.Mask exactly as net.ParseCIDR returned them."},
+	"C34": {Explain: "Round 5: R-LOCK — the exported methods of Conn reach connectionStateLocked only past handshakeMutex.Lock."},
+	"C04": {NotCov: "The octet count lengthLength computes for a DER length (seed C04i is a recorded miss: arithmetic)."},
+	"C21": {NotCov: "The range of sub-identifiers readBase128Int accepts (seed C21i is a recorded miss: arithmetic)."},
 	"C05": {Explain: "Round 5: R-TABLE — the creation functions of x509 (Create*, build*, marshal*) never rebuild a struct value field by field from another value of the same type while leaving other fields unassigned (a defensive copy of an Extension that forgets Critical)."},
 }
 
